@@ -269,6 +269,35 @@ def filledFalse (c : BArr) : List Bool := c.map fun x => !x.m && x.d
 /-- `np.insert(c, 0, np.full((k,), False))` -/
 def insertFalse (k : Nat) (c : List Bool) : List Bool := List.replicate k false ++ c
 
+/-! ### masked / plain boolean algebra and calendar columns (`ClimatologyConfig.check`) -/
+
+/-- a plain boolean array seen as a masked one (mask all False) -/
+def plainB (c : List Bool) : BArr := c.map fun b => ⟨b, false⟩
+/-- `a & b` (`np.bitwise_and` as a plain ufunc: raw data everywhere, masks united) -/
+def andB (a b : BArr) : BArr := List.zipWith (fun x y => ⟨x.d && y.d, x.m || y.m⟩) a b
+/-- `~a` (`np.invert`: raw data, same mask) -/
+def notB (a : BArr) : BArr := a.map fun x => ⟨!x.d, x.m⟩
+/-- `~mask` of a plain boolean array -/
+def notP (c : List Bool) : List Bool := c.map (!·)
+/-- `np.ma.array(data=d, mask=m)` of two plain boolean arrays -/
+def zipMask (d m : List Bool) : BArr := List.zipWith (fun x y => ⟨x, y⟩) d m
+/-- `np.isnan(a.data)` -/
+def isnanData (a : MArr) : List Bool := a.map (·.d.isNan)
+/-- `not zinp.count() or isnan(zinp.any())`: there is no unmasked element (`count()` is 0; `any()` of an all-masked or empty
+    array is `np.ma.masked`) -/
+def noneUnmasked (a : MArr) : Bool := (a.filter (!·.m)).length == 0 || a.all (·.m)
+/-- `t >= lo`, `t <= hi` for a time / period column (plain arrays) -/
+def geR (t : List Rat) (r : Rat) : List Bool := t.map fun x => decide (r ≤ x)
+def leR (t : List Rat) (r : Rat) : List Bool := t.map fun x => decide (x ≤ r)
+/-- the time column in the member's unit: the instants themselves (no period), `tinp.isocalendar().week` (week periods) or
+    `getattr(tinp, period)` — the calendar is a parameter, as in the pointwise model (`Model/Calendar.periodOf` when run) -/
+def asInstants (t : List Int) : List Rat := t.map fun x => ((x : Int) : Rat)
+def isoWeekOf (periodOf : Period → Int → Int) (t : List Int) : List Rat := t.map fun x => ((periodOf .week x : Int) : Rat)
+def attrOf (periodOf : Period → Int → Int) (p : Period) (t : List Int) : List Rat := t.map fun x => ((periodOf p x : Int) : Rat)
+/-- `np.ma.empty(n, dtype="uint8")` (content unspecified until `.fill`) and `.fill(x)` -/
+def emptyFlags (n : Nat) : List Flag := List.replicate n .good
+def fillFlags (a : List Flag) (x : Flag) : List Flag := a.map fun _ => x
+
 /-! ## array-level transcriptions -/
 
 /-- `gross_range_test` after the argument checks (spans sorted; `u ⊆ f` verified). -/
